@@ -13,9 +13,12 @@ AnyOp(a) == TRUE
 Expected(e) == CASE e.expr = "eq" -> EqualsOp(e.pat[1], e.arg)
                  [] e.expr = "in" -> InOp(e.pat, e.arg)
                  [] e.expr = "any" -> TRUE
+                 \* In({a, b}, {c, d}) over the argument list (x, y) of a variadic target: the union of the element-wise conjunctions
+                 [] e.expr = "inv" -> (EqualsOp(e.pat[1], e.arg) /\ EqualsOp(e.pat[2], e.arg2)) \/ (EqualsOp(e.pat[3], e.arg) /\ EqualsOp(e.pat[4], e.arg2))
 \* the statement speaks of same-typed operands: an interface-typed parameter compared with a value of another
 \* dynamic type is outside it (goom coerces bools/numbers/strings there) - only "no error" is required
 Judge(e) == IF e.err # "" THEN "V:error-on-well-typed-input"
+            ELSE IF e.expr = "inv" /\ e.altered THEN "V:evaluation-altered-its-argument-list"
             ELSE IF ~e.same THEN (IF \E i, j \in 1..Len(e.res) : e.res[i] # e.res[j] THEN "V:answer-changes-between-evaluations" ELSE "ok")
             ELSE IF \E i \in 1..Len(e.res) : e.res[i] # Expected(e) THEN
                  (IF \E i, j \in 1..Len(e.res) : e.res[i] # e.res[j] THEN "V:answer-changes-between-evaluations" ELSE "V:wrong-answer")
